@@ -52,6 +52,15 @@ type rw struct {
 	file   *ast.File
 	err    error
 	fname  string
+	// race instrumentation plan (filled by planRace before the rewrite)
+	selPlan map[*ast.SelectorExpr]*accPlan
+	idPlan  map[*ast.Ident]*accPlan
+	mapPlan map[ast.Expr]*accPlan // map-typed operand expressions of index/delete/len/range
+}
+
+type accPlan struct {
+	name  string
+	write bool
 }
 
 const vrtName = "__vrt"
@@ -149,7 +158,22 @@ func call(fun ast.Expr, args ...ast.Expr) *ast.CallExpr {
 
 func (r *rw) site(n ast.Node) ast.Expr {
 	p := r.fset.Position(n.Pos())
-	return &ast.BasicLit{Kind: token.STRING, Value: strconv.Quote(fmt.Sprintf("%s:%d", filepath.Base(p.Filename), p.Line))}
+	return &ast.BasicLit{Kind: token.STRING, Value: strconv.Quote(fmt.Sprintf("%s@%s:%d", r.funcAt(n.Pos()), filepath.Base(p.Filename), p.Line))}
+}
+
+// funcAt names the top-level function enclosing pos ("Type.Method" or "func").
+func (r *rw) funcAt(pos token.Pos) string {
+	for _, d := range r.file.Decls {
+		fd, ok := d.(*ast.FuncDecl)
+		if !ok || pos < fd.Pos() || pos >= fd.End() {
+			continue
+		}
+		if fd.Recv != nil && len(fd.Recv.List) > 0 {
+			return exprString(fd.Recv.List[0].Type) + "." + fd.Name.Name
+		}
+		return fd.Name.Name
+	}
+	return "?"
 }
 
 func (r *rw) rewriteFile(f *ast.File) {
@@ -186,6 +210,9 @@ func (r *rw) rewriteFile(f *ast.File) {
 		}
 	}
 	stripFieldComments(f)
+	if r.opt.Race {
+		r.planRace(f)
+	}
 	for i := range f.Decls {
 		r.walk(reflect.ValueOf(&f.Decls[i]).Elem())
 	}
@@ -307,6 +334,11 @@ func (r *rw) preExpr(e ast.Expr) (ast.Expr, bool) {
 
 // postExpr rewrites an expression whose children were already rewritten.
 func (r *rw) postExpr(e ast.Expr) ast.Expr {
+	if r.opt.Race {
+		if ne := r.raceWrap(e); ne != nil {
+			return ne
+		}
+	}
 	switch x := e.(type) {
 	case *ast.UnaryExpr:
 		if x.Op == token.ARROW {
@@ -638,4 +670,272 @@ func SortedCounts(m map[string]int) string {
 		fmt.Fprintf(&sb, "%s=%d ", k, m[k])
 	}
 	return strings.TrimSpace(sb.String())
+}
+
+
+// ---------------------------------------------------------------------------
+// Race / fine-grained instrumentation (Options.Race)
+
+func (r *rw) raceWrap(e ast.Expr) ast.Expr {
+	var out ast.Expr
+	switch x := e.(type) {
+	case *ast.SelectorExpr:
+		if p := r.selPlan[x]; p != nil {
+			delete(r.selPlan, x)
+			fn := "R"
+			if p.write {
+				fn = "Wr"
+			}
+			r.counts["race:field"]++
+			out = &ast.ParenExpr{X: &ast.StarExpr{X: call(r.vrt(fn), &ast.UnaryExpr{Op: token.AND, X: x}, strlit(p.name), r.site(x))}}
+		}
+	case *ast.Ident:
+		if p := r.idPlan[x]; p != nil {
+			delete(r.idPlan, x)
+			fn := "R"
+			if p.write {
+				fn = "Wr"
+			}
+			r.counts["race:var"]++
+			out = &ast.ParenExpr{X: &ast.StarExpr{X: call(r.vrt(fn), &ast.UnaryExpr{Op: token.AND, X: x}, strlit(p.name), r.site(x))}}
+		}
+	}
+	if p := r.mapPlan[e]; p != nil {
+		delete(r.mapPlan, e)
+		fn := "MapR"
+		if p.write {
+			fn = "MapW"
+		}
+		r.counts["race:map"]++
+		in := e
+		if out != nil {
+			in = out
+		}
+		out = call(r.vrt(fn), in, strlit(p.name), r.site(e))
+	}
+	return out
+}
+
+func strlit(s string) ast.Expr { return &ast.BasicLit{Kind: token.STRING, Value: strconv.Quote(s)} }
+
+func unparen(e ast.Expr) ast.Expr {
+	for {
+		p, ok := e.(*ast.ParenExpr)
+		if !ok {
+			return e
+		}
+		e = p.X
+	}
+}
+
+func isSyncType(t types.Type) bool {
+	if p, ok := t.(*types.Pointer); ok {
+		t = p.Elem()
+	}
+	n, ok := t.(*types.Named)
+	if !ok || n.Obj().Pkg() == nil {
+		return false
+	}
+	switch n.Obj().Pkg().Path() {
+	case "sync", "sync/atomic":
+		return true
+	}
+	return false
+}
+
+// addressable reports whether &e is legal (conservatively).
+func (r *rw) addressable(e ast.Expr) bool {
+	switch x := unparen(e).(type) {
+	case *ast.Ident:
+		_, ok := r.info.Uses[x].(*types.Var)
+		if !ok {
+			_, ok = r.info.Defs[x].(*types.Var)
+		}
+		return ok
+	case *ast.StarExpr:
+		return true
+	case *ast.SelectorExpr:
+		sel := r.info.Selections[x]
+		if sel == nil || sel.Kind() != types.FieldVal {
+			return false
+		}
+		if sel.Indirect() {
+			return true
+		}
+		return r.addressable(x.X)
+	case *ast.IndexExpr:
+		t := r.info.TypeOf(x.X)
+		if t == nil {
+			return false
+		}
+		switch u := t.Underlying().(type) {
+		case *types.Slice:
+			return true
+		case *types.Array:
+			return r.addressable(x.X)
+		case *types.Pointer:
+			_, ok := u.Elem().Underlying().(*types.Array)
+			return ok
+		}
+	}
+	return false
+}
+
+// planRace decides, on the original AST, which field selectors, captured local variables and
+// map operands are instrumented and whether each access is a write.
+func (r *rw) planRace(f *ast.File) {
+	r.selPlan = map[*ast.SelectorExpr]*accPlan{}
+	r.idPlan = map[*ast.Ident]*accPlan{}
+	r.mapPlan = map[ast.Expr]*accPlan{}
+	writes := map[ast.Expr]bool{}
+	noInstr := map[ast.Expr]bool{}
+	// pass 1: find write contexts and address-of operands, captured+mutated variables
+	declFn := map[types.Object]*ast.FuncLit{} // innermost FuncLit enclosing the declaration
+	captured := map[types.Object]bool{}
+	mutated := map[types.Object]bool{}
+	var litStack []*ast.FuncLit
+	var visit func(n ast.Node) bool
+	innermost := func() *ast.FuncLit {
+		if len(litStack) == 0 {
+			return nil
+		}
+		return litStack[len(litStack)-1]
+	}
+	markWrite := func(e ast.Expr) {
+		e = unparen(e)
+		writes[e] = true
+		if id, ok := e.(*ast.Ident); ok {
+			if o := r.info.Uses[id]; o != nil {
+				mutated[o] = true
+			}
+		}
+		if ix, ok := e.(*ast.IndexExpr); ok && r.isMap(ix.X) {
+			writes[unparen(ix.X)] = true
+		}
+	}
+	visit = func(n ast.Node) bool {
+		switch x := n.(type) {
+		case *ast.FuncLit:
+			litStack = append(litStack, x)
+			ast.Inspect(x.Type, visit)
+			ast.Inspect(x.Body, visit)
+			litStack = litStack[:len(litStack)-1]
+			return false
+		case *ast.AssignStmt:
+			if x.Tok != token.DEFINE {
+				for _, l := range x.Lhs {
+					markWrite(l)
+				}
+			} else {
+				for _, l := range x.Lhs {
+					noInstr[unparen(l)] = true
+					if id, ok := unparen(l).(*ast.Ident); ok {
+						if o := r.info.Uses[id]; o != nil { // redeclaration in := assigns an existing variable
+							mutated[o] = true
+						}
+					}
+				}
+			}
+		case *ast.IncDecStmt:
+			markWrite(x.X)
+		case *ast.RangeStmt:
+			if x.Tok == token.ASSIGN {
+				if x.Key != nil {
+					markWrite(x.Key)
+				}
+				if x.Value != nil {
+					markWrite(x.Value)
+				}
+			} else {
+				if x.Key != nil {
+					noInstr[unparen(x.Key)] = true
+				}
+				if x.Value != nil {
+					noInstr[unparen(x.Value)] = true
+				}
+			}
+		case *ast.UnaryExpr:
+			if x.Op == token.AND {
+				e := unparen(x.X)
+				noInstr[e] = true
+				if id, ok := e.(*ast.Ident); ok {
+					if o := r.info.Uses[id]; o != nil {
+						mutated[o] = true // address taken: may be written through the pointer
+					}
+				}
+			}
+		case *ast.CallExpr:
+			if r.isBuiltin(x.Fun, "delete") && len(x.Args) == 2 {
+				writes[unparen(x.Args[0])] = true
+			}
+		case *ast.Ident:
+			if o, ok := r.info.Defs[x].(*types.Var); ok && o != nil {
+				declFn[o] = innermost()
+			}
+			if o, ok := r.info.Uses[x].(*types.Var); ok && !o.IsField() && o.Pkg() != nil && o.Parent() != o.Pkg().Scope() {
+				if df, known := declFn[o]; known && df != innermost() {
+					captured[o] = true
+				}
+			}
+		}
+		return true
+	}
+	ast.Inspect(f, visit)
+	// pass 2: plan
+	ast.Inspect(f, func(n ast.Node) bool {
+		switch x := n.(type) {
+		case *ast.SelectorExpr:
+			sel := r.info.Selections[x]
+			if sel == nil || sel.Kind() != types.FieldVal || noInstr[x] {
+				return true
+			}
+			if isSyncType(sel.Type()) {
+				return true
+			}
+			if !r.addressable(x) {
+				return true
+			}
+			recv := sel.Recv()
+			if p, ok := recv.(*types.Pointer); ok {
+				recv = p.Elem()
+			}
+			name := types.TypeString(recv, func(*types.Package) string { return "" }) + "." + x.Sel.Name
+			r.selPlan[x] = &accPlan{name: name, write: writes[x]}
+		case *ast.Ident:
+			o, ok := r.info.Uses[x].(*types.Var)
+			if !ok || o.IsField() || noInstr[x] || !captured[o] || !mutated[o] {
+				return true
+			}
+			if isSyncType(o.Type()) {
+				return true
+			}
+			r.idPlan[x] = &accPlan{name: "var " + o.Name(), write: writes[x]}
+		case *ast.IndexExpr:
+			if r.isMap(x.X) {
+				e := unparen(x.X)
+				r.mapPlan[e] = &accPlan{name: "map " + exprString(e), write: writes[e]}
+			}
+		case *ast.CallExpr:
+			if len(x.Args) >= 1 && (r.isBuiltin(x.Fun, "len") || r.isBuiltin(x.Fun, "delete")) && r.isMap(x.Args[0]) {
+				e := unparen(x.Args[0])
+				r.mapPlan[e] = &accPlan{name: "map " + exprString(e), write: writes[e]}
+			}
+		}
+		return true
+	})
+	// map operands that are themselves planned selectors/idents: the map plan wraps the (already wrapped) expression
+}
+
+func exprString(e ast.Expr) string {
+	switch x := e.(type) {
+	case *ast.Ident:
+		return x.Name
+	case *ast.SelectorExpr:
+		return exprString(x.X) + "." + x.Sel.Name
+	case *ast.StarExpr:
+		return "*" + exprString(x.X)
+	case *ast.ParenExpr:
+		return exprString(x.X)
+	}
+	return "expr"
 }
